@@ -967,7 +967,11 @@ def gen_history(rng, case, length, foreign=0.05):
         if r < 0.36:
             cand = [i for i in range(len(pool)) if ab.entry_live(i)]
             if rng.random() < foreign or not cand:
-                cand = list(range(len(pool)))
+                # links over attributes that are not live (compared with the model only); LinkSameWithUnits is left out:
+                # its functions look the units of its own end points up in their datasets whenever they are evaluated
+                cand = [j for j in range(len(pool)) if pool[j]['kind'] != 'units' or ab.entry_live(j)]
+            if not cand:
+                continue
             i = rng.choice(cand)
             if pool[i]['kind'] in COLLECTION_KINDS and i in ext and rng.random() < 0.8:
                 continue
@@ -981,7 +985,9 @@ def gen_history(rng, case, length, foreign=0.05):
                 i = rng.randrange(len(pool))
             o = ('removelink', i)
         elif r < 0.54:
-            cand = [i for i in range(len(pool)) if ab.entry_live(i)] or list(range(len(pool)))
+            cand = [i for i in range(len(pool)) if ab.entry_live(i)] or [i for i in range(len(pool)) if pool[i]['kind'] != 'units']
+            if not cand:
+                continue
             sel = sorted(set(rng.choice(cand) for _ in range(rng.randint(0, 3))))
             o = ('setlinks', tuple(sel))
             ext = list(sel)
@@ -1230,7 +1236,7 @@ def stream_random(R):
         cases.append(case)
     run_histories(R, 'histories_random', cases, False, '%d histories of 3..12 operations over 2..5 datasets, pools of 3..10 links' % n)
     # link-heavy histories: long chains, cycles and diamonds over many datasets, few removals
-    m = R.pick(150, 800)
+    m = R.pick(150, 600)
     cases = []
     for i in range(m):
         rng = R.subrng('dense', i)
